@@ -12,14 +12,14 @@ Six defects this development had found in the real code were repaired in /repo (
 the statements that needed a hypothesis because of them are now proved in full
 (`static_rebind`, `mode_stable`, `change_ref_agrees`, `ref_loop`, `dynamic_outside`; the former
 witnesses of failure are positive `example`s at the end).  Three places where the real code
-does not do what the property says stay visible:
+does not do what the property says stay visible (two are open):
 
 * `dynamic_rebind_full_fails` – an `auto` reference that the ItemSpace's base tree derives from
   a space outside it with an absolute binding is not rebound although its target lies inside
   (known finding `C10-dyn-derived-absolute-inside`; `dynamic_rebind` is the partial statement);
-* `change_ref_unchecked_full_fails` – `change_ref` accepts a `relative` reference whose target is
-  outside a sub space's tree (`_check_subs_relrefs` never looks at sub spaces that have the name):
-  known finding `C10-change-ref-relative-unchecked`;
+* (repaired by 004f472, `accepted_set_ref_agrees_with_inherit` is the full statement now;
+  `unguarded_change_ref_fails` keeps the witness of the code before it: `change_ref` accepted a
+  `relative` reference whose target is outside a sub space's tree);
 * `binding_depends_on_enclosing_bases` – what a nested space's reference denotes depends on
   the bases of the enclosing spaces, which modelx does not re-derive after a base change there
   (known finding `C10-enclosing-base-change`; an incremental-maintenance defect, outside this
@@ -246,13 +246,51 @@ and the same flag `is_relative` (the computed flag is stored in the new referenc
 theorem change_ref_agrees (mroOf : Path → List Path) (exist : Path → Bool) (m : Mode) (S D : Path)
     (v : Target) : changeRefSub mroOf exist m S D v = newRefSub mroOf exist m S D v := rfl
 
-/-- **but** `change_ref` is not guarded by the check: `_check_subs_relrefs` skips every sub space
-that already has the name, and the sub spaces `change_ref` visits all have it.  Re-assigning a
-`relative` reference to an object outside a sub space's tree is therefore accepted and leaves
-that sub space with a `relative`-mode reference bound absolutely – a state re-derivation rejects
-(known finding `C10-change-ref-relative-unchecked`; `new_ref_agrees_with_inherit` is the partial
-statement, its hypothesis is what `new_ref` enforces and `change_ref` does not). -/
-theorem change_ref_unchecked_full_fails :
+/-- **An accepted `new_ref` / `change_ref` leaves every sub space that takes the value with what
+re-derivation gives it** (object-valued references; `r` is whatever derived reference the sub space
+held before).  Full statement since the repair 004f472, which makes `_check_subs_relrefs` look at
+the sub spaces `change_ref` rebinds; before it the check skipped them all, see
+`unguarded_change_ref_fails`. -/
+theorem accepted_set_ref_agrees_with_inherit (mroOf : Path → List Path) (exist : Path → Bool)
+    (change : Bool) (m : Mode) (D v : Path) (subs : List Path) (out : List (Option DRef))
+    (hacc : setRefGuarded mroOf exist change m D (.obj v) subs = some out) :
+    ∀ (r : DRef), out = subs.map (fun S => reinherit mroOf exist r m S D (.obj v)) := by
+  intro r
+  unfold setRefGuarded at hacc
+  split at hacc
+  · simp at hacc
+  · rename_i hany
+    simp only [Option.some.injEq] at hacc
+    rw [← hacc]
+    have hall : ∀ S ∈ subs, checkSubRelref mroOf m S D (.obj v) = false := by
+      intro S hS
+      cases hc : checkSubRelref mroOf m S D (.obj v)
+      · rfl
+      · exact absurd (List.any_eq_true.mpr ⟨S, hS, hc⟩) hany
+    unfold refLoop
+    apply List.map_congr_left
+    intro S hS
+    have := new_ref_agrees_with_inherit mroOf exist m r S D v (hall S hS)
+    cases change <;> simp [changeRefSub, this]
+
+/-- a refused edit is refused for a reason: some sub space that would take the value cannot be given
+a relative binding -/
+theorem refused_set_ref_has_culprit (mroOf : Path → List Path) (exist : Path → Bool)
+    (change : Bool) (m : Mode) (D : Path) (v : Target) (subs : List Path)
+    (href : setRefGuarded mroOf exist change m D v subs = none) :
+    ∃ S ∈ subs, checkSubRelref mroOf m S D v = true := by
+  unfold setRefGuarded at href
+  split at href
+  · rename_i hany
+    exact List.any_eq_true.mp hany
+  · simp at href
+
+/-- Without the guard (the code before 004f472, where `_check_subs_relrefs` skipped every sub space
+that already has the name, i.e. all those `change_ref` visits) the statement is false: re-assigning a
+`relative` reference to an object outside a sub space's tree left that sub space with a
+`relative`-mode reference bound absolutely - a state re-derivation rejects (finding
+`C10-change-ref-relative-unchecked`, repaired; the witness stays in the corpus). -/
+theorem unguarded_change_ref_fails :
     ¬ ∀ (mroOf : Path → List Path) (exist : Path → Bool) (m : Mode) (r : DRef) (S D v : Path),
         changeRefSub mroOf exist m S D (.obj v) = reinherit mroOf exist r m S D (.obj v) := by
   intro h
@@ -260,6 +298,10 @@ theorem change_ref_unchecked_full_fails :
     ⟨.relative, ⟨.obj ["Sub", "foo"], true⟩⟩ ["Sub"] ["Base"] ["Out", "oo"]
   revert this
   decide
+
+/-- …and the guarded operation refuses exactly that edit -/
+example : setRefGuarded (fun p => if p = ["Sub"] then [["Sub"], ["Base"]] else [p]) (fun _ => true)
+    true .relative ["Base"] (.obj ["Out", "oo"]) [["Sub"]] = none := by decide
 
 /-- the loop over the sub spaces gives every sub space its own step, whatever the other sub
 spaces were bound to (each gets its own `subvalue`) -/
